@@ -101,6 +101,22 @@ func (l *yyLexer) Lex(a int) int { return a - l.k }
 //line /abs/elsewhere/gen.tmpl:7
 func Templated(a int) int { return a + 7 }
 `, "gram/plain.go": fn("gram", "Plain")}},
+		{"two-ignored-generators", map[string]string{"tools/gen_a.go": "//go:build ignore\n\npackage main\n\nfunc helper(a int) int {\n\tif a > 2 {\n\t\treturn a * 5\n\t}\n\treturn a\n}\n\nfunc main() { println(helper(1)) }\n",
+			"tools/gen_b.go": "//go:build ignore\n\npackage main\n\nimport \"os\"\n\nfunc helper(x string) string {\n\tif len(x) > 3 {\n\t\treturn x[:3]\n\t}\n\treturn x + \"!\"\n}\n\nfunc main() { os.Stdout.WriteString(helper(\"abc\")) }\n",
+			"tools/lib.go": fn("tools", "Lib")}},
+		{"generic-multitype-conversion", map[string]string{"conv/conv.go": `package conv
+
+func Bytes[T ~string | ~[]byte](x T) []byte { return []byte(x) }
+
+func Text[T ~string | ~[]byte](x T) string {
+	if len(x) == 0 {
+		return ""
+	}
+	return string(x)
+}
+
+func Use() int { return len(Bytes("ab")) + len(Text([]byte("c"))) }
+`, "conv/other.go": fn("conv", "Other")}},
 		{"dotted-dir-names", map[string]string{"v1.2/api.go": fn("api", "Api"), "a.b/c..d/e.go": fn("e", "E"), "..weird/w.go": fn("w", "W")}},
 	}
 }
